@@ -382,81 +382,89 @@ def rule_R6(res, prog):
     from sa.pp import pp
     rid = "C01.R6"
     res.rule(rid, "the early-data limit enforced before delivery never exceeds the session's own tls13SessionMaxEarlyData")
-    fn = prog.fn("matrixSslDecodeTls13")
-    rd = cu.reaching_defs(fn)
+    decoder = prog.fn("matrixSslDecodeTls13")
     n = 0
-
-    def bounded(e, bid, idx, depth=0):
-        e = strip(e)
-        while e is not None and e.get("k") == "cast":
-            e = strip(e["e"])
-        if e is None or depth > 3:
-            return False
-        if e.get("k") == "mem":
-            return e.get("f") == "tls13SessionMaxEarlyData"
-        if e.get("k") == "cond":
-            c_ = strip(e.get("c"))
-            a_, b_ = e.get("a"), e.get("b")
-            if c_ is None or c_.get("k") != "bin" or c_["op"] not in ("<", "<=", ">", ">="):
-                return False
-            la, lb = cu.ftext(strip(c_["l"])), cu.ftext(strip(c_["r"]))
-            ta, tb = cu.ftext(strip(a_)), cu.ftext(strip(b_))
-            if {la, lb} != {ta, tb}:
-                return False
-            small_first = c_["op"] in ("<", "<=")
-            picks_small = (ta == la) if small_first else (ta == lb)
-            return picks_small and (bounded(a_, bid, idx, depth + 1) or bounded(b_, bid, idx, depth + 1))
-        if e.get("k") == "var" and "id" in e:
-            ds = cu.defs_at(fn, rd, bid, idx, e["id"])
-            return bool(ds) and all(d[2] in ("decl", "assign") and d[3] is not None and bounded(d[3], d[0], d[1], depth + 1) for d in ds)
-        return False
-    for b in fn.blocks:
-        t = b.get("term")
-        if t is None or "c" not in t:
-            continue
-        for nd in walk(t["c"]):
-            if nd.get("k") == "bin" and nd["op"] in (">", ">=", "<", "<="):
-                l_, r_ = strip(nd["l"]), strip(nd["r"])
-                for cnt, lim in ((l_, r_), (r_, l_)):
-                    if cnt is not None and cnt.get("k") == "mem" and cnt.get("f") == "tls13ReceivedEarlyDataLen" and lim is not None:
-                        if lim.get("k") == "mem" and lim.get("f") == "tls13SessionMaxEarlyData":
-                            ok = True
-                        else:
-                            ok = bounded(lim, b["id"], "c")
-                        n += 1
-                        f_ = None
-                        if not ok:
-                            f_ = Finding(PROP, rid, fn.name, "early-data limit not bounded by the session setting",
-                                         "%s:%s matrixSslDecodeTls13(): ssl->tls13ReceivedEarlyDataLen is compared with `%s`, and a definition "
-                                         "of it reaching this test is not ssl->tls13SessionMaxEarlyData or a minimum with it: a session that did "
-                                         "not enable early data delivers 0-RTT application data before the handshake completes" % (
-                                             fn.relfile, t["ln"], pp(lim)[:40]), file=fn.relfile, line=t["ln"])
-                        res.instance(rid, "matrixSslDecodeTls13:%s tls13ReceivedEarlyDataLen vs %s" % (t["ln"], pp(lim)[:30]), ok, finding=f_)
-    # the limit test is on every path from `hsState == WAIT_EOED` to the delivery of application data
+    nm = 0
     EOED = prog.const("SSL_HS_TLS_1_3_WAIT_EOED")
     PD = prog.const("SSL_PROCESS_DATA")
-    nm = 0
-    for b in fn.blocks:
-        t = b.get("term")
-        if t is None or "c" not in t or len(b["succ"]) != 2:
+    # the admission test may live in the decoder or in a helper extracted from it: every function of the library is looked at
+    for fn in sorted(prog.functions.values(), key=lambda f: f.qname):
+        if not fn.blocks or not fn.relfile.startswith("matrixssl/") or "/test/" in fn.relfile:
             continue
-        if not any(txt == "(ssl->hsState == %d)" % EOED for (txt, tr, nd) in cu._cond_atoms(t["c"], True) if tr):
+        if not any(m.get("k") == "mem" and m.get("f") == "tls13ReceivedEarlyDataLen" for b_, l_, m in fn.nodes()):
             continue
-        s0 = b["succ"][0].get("b")
-        if s0 is None:
-            continue
-        nm += 1
-        esc = cu.escapes(fn, (s0, None),
-                         lambda x: any(m.get("k") == "mem" and m.get("f") == "tls13ReceivedEarlyDataLen" for m in walk(x)) and
-                         any(m.get("k") == "bin" and m["op"] in (">", ">=", "<", "<=") for m in walk(x)),
-                         is_target=lambda xr: (strip(xr.get("e")) or {}).get("k") == "int" and strip(xr["e"])["v"] == PD)
-        f_ = None
-        if esc is not None:
-            f_ = Finding(PROP, rid, fn.name, "early data delivered without the limit test",
-                         "%s:%s matrixSslDecodeTls13(): from the branch hsState == WAIT_EOED (line %s) application data is returned "
-                         "(SSL_PROCESS_DATA, line %s) on a path that does not compare tls13ReceivedEarlyDataLen with the limit" % (
-                             fn.relfile, t["ln"], t["ln"], esc[-1][1]), file=fn.relfile, line=t["ln"])
-        res.instance(rid, "matrixSslDecodeTls13:%s WAIT_EOED -> SSL_PROCESS_DATA passes the early-data limit test" % t["ln"], esc is None, finding=f_)
+        rd = cu.reaching_defs(fn)
+        gf6 = cu.guard_facts(fn)
+
+        def bounded(e, bid, idx, depth=0):
+            e = strip(e)
+            while e is not None and e.get("k") == "cast":
+                e = strip(e["e"])
+            if e is None or depth > 3:
+                return False
+            if e.get("k") == "mem":
+                return e.get("f") == "tls13SessionMaxEarlyData"
+            if e.get("k") == "cond":
+                c_ = strip(e.get("c"))
+                a_, b_ = e.get("a"), e.get("b")
+                if c_ is None or c_.get("k") != "bin" or c_["op"] not in ("<", "<=", ">", ">="):
+                    return False
+                la, lb = cu.ftext(strip(c_["l"])), cu.ftext(strip(c_["r"]))
+                ta, tb = cu.ftext(strip(a_)), cu.ftext(strip(b_))
+                if {la, lb} != {ta, tb}:
+                    return False
+                small_first = c_["op"] in ("<", "<=")
+                picks_small = (ta == la) if small_first else (ta == lb)
+                return picks_small and (bounded(a_, bid, idx, depth + 1) or bounded(b_, bid, idx, depth + 1))
+            if e.get("k") == "var" and "id" in e:
+                ds = cu.defs_at(fn, rd, bid, idx, e["id"])
+                return bool(ds) and all(d[2] in ("decl", "assign") and d[3] is not None and bounded(d[3], d[0], d[1], depth + 1) for d in ds)
+            return False
+        for b in fn.blocks:
+            t = b.get("term")
+            if t is None or "c" not in t:
+                continue
+            for nd in walk(t["c"]):
+                if nd.get("k") == "bin" and nd["op"] in (">", ">=", "<", "<="):
+                    l_, r_ = strip(nd["l"]), strip(nd["r"])
+                    for cnt, lim in ((l_, r_), (r_, l_)):
+                        if cnt is not None and cnt.get("k") == "mem" and cnt.get("f") == "tls13ReceivedEarlyDataLen" and lim is not None:
+                            if lim.get("k") == "mem" and lim.get("f") == "tls13SessionMaxEarlyData":
+                                ok = True
+                            else:
+                                ok = bounded(lim, b["id"], "c")
+                            n += 1
+                            f_ = None
+                            if not ok:
+                                f_ = Finding(PROP, rid, fn.name, "early-data limit not bounded by the session setting",
+                                             "%s:%s %s(): ssl->tls13ReceivedEarlyDataLen is compared with `%s`, and a definition "
+                                             "of it reaching this test is not ssl->tls13SessionMaxEarlyData or a minimum with it: a session that did "
+                                             "not enable early data delivers 0-RTT application data before the handshake completes" % (
+                                                 fn.relfile, t["ln"], fn.name, pp(lim)[:40]), file=fn.relfile, line=t["ln"])
+                            res.instance(rid, "%s:%s tls13ReceivedEarlyDataLen vs %s" % (fn.name, t["ln"], pp(lim)[:30]), ok, finding=f_)
+        # the limit test is on every path from `hsState == WAIT_EOED` to the delivery of application data
+        for b in fn.blocks:
+            t = b.get("term")
+            if t is None or "c" not in t or len(b["succ"]) != 2:
+                continue
+            if not any(txt == "(ssl->hsState == %d)" % EOED for (txt, tr, nd) in cu._cond_atoms(t["c"], True) if tr):
+                continue
+            s0 = b["succ"][0].get("b")
+            if s0 is None:
+                continue
+            nm += 1
+            esc = cu.escapes(fn, (s0, None),
+                             lambda x: any(m.get("k") == "mem" and m.get("f") == "tls13ReceivedEarlyDataLen" for m in walk(x)) and
+                             any(m.get("k") == "bin" and m["op"] in (">", ">=", "<", "<=") for m in walk(x)),
+                             is_target=(lambda xr: (strip(xr.get("e")) or {}).get("k") == "int" and strip(xr["e"])["v"] == PD) if fn.qname == decoder.qname
+                             else (lambda xr: cu.success_ret(xr) and not (strip(xr.get("e")) or {}).get("k") == "un"))
+            f_ = None
+            if esc is not None:
+                f_ = Finding(PROP, rid, fn.name, "early data delivered without the limit test",
+                             "%s:%s %s(): from the branch hsState == WAIT_EOED (line %s) application data is admitted "
+                             "(line %s) on a path that does not compare tls13ReceivedEarlyDataLen with the limit" % (
+                                 fn.relfile, t["ln"], fn.name, t["ln"], esc[-1][1]), file=fn.relfile, line=t["ln"])
+            res.instance(rid, "%s:%s WAIT_EOED -> delivery passes the early-data limit test" % (fn.name, t["ln"]), esc is None, finding=f_)
     if nm == 0:
         raise AnalysisBroken("C01.R6: no branch on hsState == SSL_HS_TLS_1_3_WAIT_EOED in matrixSslDecodeTls13")
     res.floor(rid, 2)
